@@ -103,12 +103,19 @@ impl Names {
     pub fn snapshot(&self) -> BTreeMap<String, Vec<u8>> {
         let mut out = BTreeMap::new();
         for (k, v) in fsutil::snapshot(&self.root) {
+            // files of C08 obstacles (non-empty directories placed at archive names)
+            if k.contains("/keep/") {
+                continue;
+            }
             if let Entry::File(b) = v {
                 out.insert(k, b);
             }
         }
         if let Some(r2) = &self.root2 {
             for (k, v) in fsutil::snapshot(r2) {
+                if k.contains("/keep/") {
+                    continue;
+                }
                 if let Entry::File(b) = v {
                     out.insert(format!("@2/{}", k), b);
                 }
@@ -158,6 +165,8 @@ pub struct Attr {
     /// a file outside the managed names changed, vanished or appeared
     pub other_prop: &'static str,
     pub other: &'static str,
+    /// appended to data signatures (fault configurations: the open mode)
+    pub sig: &'static str,
 }
 
 pub struct Model {
@@ -233,7 +242,7 @@ impl Model {
                 None => {
                     let is_arch = self.window.iter().any(|(i, _)| names.key(&names.arch(*i)) == *k);
                     if is_arch {
-                        sink.fail(at.prop, at.data, "archive-missing", format!("{}: archive {} ({} bytes expected) does not exist; tree: {}", when, k, want.len(), brief(&actual)));
+                        sink.fail(at.prop, at.data, &format!("{}{}", "archive-missing", at.sig), format!("{}: archive {} ({} bytes expected) does not exist; tree: {}", when, k, want.len(), brief(&actual)));
                     } else {
                         sink.fail(at.other_prop, at.other, "bystander-removed", format!("{}: file {} outside the managed names was removed", when, k));
                     }
@@ -244,7 +253,7 @@ impl Model {
                         match gunzip(have) {
                             Ok(p) => p,
                             Err(e) => {
-                                sink.fail(at.prop, at.data, "archive-corrupt", format!("{}: archive {} does not decompress: {}", when, k, e));
+                                sink.fail(at.prop, at.data, &format!("{}{}", "archive-corrupt", at.sig), format!("{}: archive {} does not decompress: {}", when, k, e));
                                 return false;
                             }
                         }
@@ -257,7 +266,7 @@ impl Model {
                             sink.fail(
                                 at.prop,
                                 at.data,
-                                "archive-content",
+                                &format!("{}{}", "archive-content", at.sig),
                                 format!("{}: archive {} holds {:?}, expected {:?}", when, k, frame::whole_ids(&have_plain).iter().map(|i| i.to_string()).collect::<Vec<_>>(), frame::whole_ids(want).iter().map(|i| i.to_string()).collect::<Vec<_>>()),
                             );
                         } else {
@@ -291,7 +300,7 @@ impl Model {
             sink.fail(
                 at.prop,
                 at.data,
-                "active-content",
+                &format!("{}{}", "active-content", at.sig),
                 format!(
                     "{}: active file holds {:?} ({} bytes), expected {:?} ({} bytes){}; tree: {}",
                     when,
@@ -368,4 +377,207 @@ pub fn write_archive(p: &Path, plain: &[u8], gz: bool) {
         }
     }
     fs::write(p, plain).unwrap();
+}
+
+// ------------------------------------------------------------------ C08
+
+/// What the model knew right before the failing step.
+#[derive(Clone, Debug, Default)]
+pub struct PreState {
+    pub active: Vec<u8>,
+    pub pending: Option<(RecId, Vec<u8>)>,
+    pub window: BTreeMap<u32, Vec<u8>>,
+}
+
+pub struct InstantCtx<'a> {
+    pub names: &'a Names,
+    pub roller: &'a RollerSpec,
+    pub tree: &'a BTreeMap<String, Vec<u8>>,
+    pub pre: &'a PreState,
+    /// the failure / crash happened while a rotation was under way
+    pub in_roll: bool,
+    /// records whose append has not returned Ok: may be present, absent or torn
+    pub unacked: &'a std::collections::HashSet<RecId>,
+    /// the fault / crash site is inside the compress step: a (possibly torn)
+    /// duplicate of the newest chunk at the base archive is tolerated
+    pub compress_site: bool,
+    pub stream: &'a [RecId],
+    pub when: &'a str,
+}
+
+fn managed_of(r: &RollerSpec) -> Vec<u32> {
+    match r {
+        RollerSpec::Delete => vec![],
+        RollerSpec::Fixed { base, count, .. } => (*base..*base + *count).collect(),
+    }
+}
+
+/// C08-I2 and C08-I3 at a failure or crash instant. Returns false after reporting.
+pub fn check_instant(c: &InstantCtx, sink: &Sink) -> bool {
+    let names = c.names;
+    let managed = managed_of(c.roller);
+    let akey = names.key(&names.active);
+    // plain contents of every managed name and the active path
+    let mut plain: Vec<(String, Option<Vec<u8>>)> = vec![];
+    for i in managed.iter().rev() {
+        let k = names.key(&names.arch(*i));
+        if let Some(b) = c.tree.get(&k) {
+            let p = if names.gz { gunzip(b).ok() } else { Some(b.clone()) };
+            plain.push((k, p));
+        }
+    }
+    if let Some(b) = c.tree.get(&akey) {
+        plain.push((akey.clone(), Some(b.clone())));
+    }
+    // ---- I2: every chunk the completed rotation would retain is intact somewhere
+    let mut required: Vec<(String, Vec<u8>, Option<Vec<u8>>)> = vec![]; // (what, bytes, optional in-flight tail)
+    let (base, count) = match c.roller {
+        RollerSpec::Fixed { base, count, .. } => (*base, *count),
+        RollerSpec::Delete => (0, 0),
+    };
+    let active_retained = !(c.in_roll && count == 0);
+    if active_retained && !c.pre.active.is_empty() {
+        required.push(("the active chunk".into(), c.pre.active.clone(), c.pre.pending.as_ref().map(|p| p.1.clone())));
+    }
+    for (i, w) in &c.pre.window {
+        let evicted = c.in_roll && count > 0 && *i == base + count - 1;
+        if !evicted && !w.is_empty() {
+            required.push((format!("the chunk of archive {}", i), w.clone(), None));
+        }
+    }
+    for (what, bytes, tail) in &required {
+        let found = plain.iter().any(|(_, p)| match p {
+            None => false,
+            Some(p) => {
+                if p == bytes {
+                    true
+                } else if let Some(t) = tail {
+                    p.starts_with(bytes) && t.starts_with(&p[bytes.len()..])
+                } else {
+                    // the active chunk may have grown by unacknowledged data only
+                    false
+                }
+            }
+        });
+        if !found {
+            sink.fail(
+                "C08",
+                "C08-I2",
+                "chunk-lost",
+                format!("{}: {} ({:?}) is not intact under any managed name or the active path; tree: {}", c.when, what, frame::whole_ids(bytes).iter().map(|i| i.to_string()).collect::<Vec<_>>(), brief(c.tree)),
+            );
+            return false;
+        }
+    }
+    // ---- I3: oldest-to-newest reading is a gap-free suffix of the stream
+    let mut files: Vec<(String, Vec<frame::Item>)> = vec![];
+    for (k, p) in &plain {
+        match p {
+            Some(p) => files.push((k.clone(), frame::scan(p, 0))),
+            None => {
+                if !(c.compress_site && *k == names.key(&names.arch(base))) {
+                    sink.fail("C08", "C08-I3", "archive-corrupt", format!("{}: archive {} does not decompress; tree: {}", c.when, k, brief(c.tree)));
+                    return false;
+                }
+            }
+        }
+    }
+    // tolerated duplicate: base archive repeats (a prefix of) the active file while compressing
+    if c.compress_site && files.len() >= 2 {
+        let bkey = names.key(&names.arch(base));
+        let n = files.len();
+        if files[n - 1].0 == akey && files[n - 2].0 == bkey {
+            let ids = |v: &Vec<frame::Item>| -> Vec<RecId> {
+                v.iter().filter_map(|i| if let frame::Item::Whole { id, .. } = i { Some(*id) } else { None }).collect()
+            };
+            let a = ids(&files[n - 1].1);
+            let b = ids(&files[n - 2].1);
+            if a.starts_with(&b) {
+                files.remove(n - 2);
+            }
+        }
+    }
+    let mut seq: Vec<RecId> = vec![];
+    for (k, items) in &files {
+        let m = items.len();
+        for (j, it) in items.iter().enumerate() {
+            match it {
+                frame::Item::Whole { id, .. } => {
+                    if !c.unacked.contains(id) {
+                        seq.push(*id)
+                    }
+                }
+                frame::Item::Torn { id, .. } => {
+                    let ok = match id {
+                        Some(id) => c.unacked.contains(id),
+                        None => !c.unacked.is_empty(),
+                    } && (j + 1 == m || matches!(items.get(j + 1), Some(frame::Item::Whole { .. })));
+                    if !ok {
+                        sink.fail("C08", "C08-I3", "torn-acknowledged", format!("{}: {} holds a torn record {:?} that is not the unacknowledged one; tree: {}", c.when, k, id, brief(c.tree)));
+                        return false;
+                    }
+                }
+                frame::Item::Junk { why, .. } => {
+                    sink.fail("C08", "C08-I3", "garbage", format!("{}: {} holds garbage ({}); tree: {}", c.when, k, why, brief(c.tree)));
+                    return false;
+                }
+            }
+        }
+    }
+    let want: Vec<RecId> = c.stream.iter().copied().filter(|i| !c.unacked.contains(i)).collect();
+    let n = seq.len();
+    if n > want.len() || want[want.len() - n..] != seq[..] {
+        sink.fail(
+            "C08",
+            "C08-I3",
+            "gap",
+            format!(
+                "{}: reading managed names oldest to newest then the active path yields {:?}, not a gap-free suffix of the acknowledged stream {:?}; tree: {}",
+                c.when,
+                seq.iter().map(|i| i.to_string()).collect::<Vec<_>>(),
+                want.iter().map(|i| i.to_string()).collect::<Vec<_>>(),
+                brief(c.tree)
+            ),
+        );
+        return false;
+    }
+    true
+}
+
+impl Model {
+    /// Rebuilds the model from the (validated) on-disk state after a fault.
+    /// Returns false if some archive cannot be represented (undecodable).
+    pub fn resync(&mut self, names: &Names) -> bool {
+        let tree = names.snapshot();
+        let mut ok = true;
+        self.window.clear();
+        self.pending = None;
+        let mut stream = vec![];
+        let managed = self.managed();
+        for i in managed.iter().rev() {
+            let k = names.key(&names.arch(*i));
+            if let Some(b) = tree.get(&k) {
+                match if names.gz { gunzip(b) } else { Ok(b.clone()) } {
+                    Ok(p) => {
+                        stream.extend(frame::whole_ids(&p));
+                        self.window.insert(*i, p);
+                    }
+                    Err(_) => ok = false,
+                }
+            }
+        }
+        let akey = names.key(&names.active);
+        self.active = tree.get(&akey).cloned().unwrap_or_default();
+        stream.extend(frame::whole_ids(&self.active));
+        self.stream = stream;
+        // everything else is a bystander from now on
+        self.others.clear();
+        for (k, v) in tree {
+            if k == akey || managed.iter().any(|i| names.key(&names.arch(*i)) == k) {
+                continue;
+            }
+            self.others.insert(k, v);
+        }
+        ok
+    }
 }
